@@ -89,6 +89,20 @@ func opBatchIgnore(c Obj) J {
 		set.Add(cedar.PolicyID(id), cedar.NewPolicyFromAST((*pubast.Policy)(must(cwf.JToPolicy(o["policy"])))))
 	}
 	req := batch.Request{Principal: tmpl.P, Action: tmpl.A, Resource: tmpl.R, Context: tmpl.C}
+	// at most one variable with one value: still one result, but the policies go through the partial passes that
+	// run while a variable is unbound
+	if arr, ok := c["vars"].([]any); ok && len(arr) > 0 {
+		req.Variables = batch.Variables{}
+		for _, e := range arr {
+			o := e.(Obj)
+			key, _ := o["key"].(string)
+			var vals []types.Value
+			for _, v := range o["values"].([]any) {
+				vals = append(vals, must(cwf.JToValue(v)))
+			}
+			req.Variables[types.String(key)] = vals
+		}
+	}
 	results := []any{}
 	err := batch.Authorize(context.Background(), set, tmpl.Store, req, func(r batch.Result) error {
 		reasons := []string{}
@@ -138,6 +152,10 @@ func driveBatchIgnore(seed int64, n int, params map[string]string) []Obj {
 			add(ast.Action().Equal(ast.Value(base.A)))
 			add(ast.Resource().Equal(ast.Value(base.R)).Or(ast.Context().Has("zz")))
 			add(ast.Context().Equal(ast.Value(base.C)))
+			// `is .. in` whose operands sit in different request parts (true when the resource is the principal)
+			isin := &ast.Policy{Effect: ast.EffectPermit, Principal: ast.ScopeTypeAll{}, Action: ast.ScopeTypeAll{}, Resource: ast.ScopeTypeAll{},
+				Conditions: []ast.ConditionType{{Condition: ast.ConditionWhen, Body: ast.Principal().IsIn(uid.Type, ast.Resource()).AsIsNode()}}}
+			pols = append(pols, Obj{"id": "isin", "policy": cwf.PolicyToJ(isin)})
 			g.r.Shuffle(len(likely.Conditions), func(a, b int) {
 				likely.Conditions[a], likely.Conditions[b] = likely.Conditions[b], likely.Conditions[a]
 			})
@@ -157,6 +175,17 @@ func driveBatchIgnore(seed int64, n int, params map[string]string) []Obj {
 				tmpl[k] = env[k]
 			}
 		}
+		// one of the parts that are not ignored may be a variable with a single value
+		vars := []any{}
+		if g.r.Intn(2) == 0 {
+			for _, k := range []string{"p", "r"} {
+				if !ign[k] {
+					vars = append(vars, Obj{"key": "x", "values": []any{env[k]}})
+					tmpl[k] = Obj{"k": "unknown", "name": "x"}
+					break
+				}
+			}
+		}
 		comps := []any{}
 		for k := 0; k < 8; k++ {
 			other := cwf.EnvToJ(g.env()).(Obj)
@@ -167,13 +196,19 @@ func driveBatchIgnore(seed int64, n int, params map[string]string) []Obj {
 					comp[part] = env[part]
 				case k == 0:
 					comp[part] = env[part] // the environment the template was cut from
+				case k == 1 && (part == "r" || part == "p"):
+					if part == "r" {
+						comp[part] = env["p"] // the resource is the principal
+					} else {
+						comp[part] = env["r"]
+					}
 				default:
 					comp[part] = other[part]
 				}
 			}
 			comps = append(comps, comp)
 		}
-		out = append(out, Obj{"op": "batchignore", "policies": pols, "template": tmpl, "completions": comps})
+		out = append(out, Obj{"op": "batchignore", "policies": pols, "template": tmpl, "completions": comps, "vars": vars})
 	}
 	return out
 }
